@@ -255,6 +255,32 @@ pub fn run(args: &Args) {
             }
         }
     }
+    // configurations without any OOV provider: refused at load time, or -- if a version of the loader accepts them -- every
+    // input must still give a morpheme list or an error value
+    if replay_case.is_none() || replay_case.as_ref().map(|c| c["kind"] == "no-oov-provider").unwrap_or(false) {
+        let default_in = json!({"class": "com.worksap.nlp.sudachi.DefaultInputTextPlugin"});
+        for (k, cfg) in [json!({"characterDefinitionFile": "char.def", "inputTextPlugin": [default_in], "oovProviderPlugin": []}),
+                         json!({"characterDefinitionFile": "char.def", "inputTextPlugin": [default_in]}),
+                         json!({"characterDefinitionFile": "char.def", "oovProviderPlugin": [], "pathRewritePlugin": [{"class": "com.worksap.nlp.sudachi.JoinNumericPlugin", "enableNormalize": true}]})].iter().enumerate() {
+            match load_dictionary_caught(&dir, system.clone(), vec![], cfg) {
+                Err(_) => {
+                    sink.tag("no_oov_provider:refused");
+                    sink.case_rust_only(json!({"kind": "no-oov-provider", "variant": k, "text": ""}), false);
+                }
+                Ok(dict) => {
+                    sink.tag("no_oov_provider:loaded");
+                    let mut tok = StatefulTokenizer::new(&dict, Mode::C);
+                    for t in ["京都", "京都x", "あ", "東京都に行った☆", "", "abc", "\u{0}"] {
+                        let id = sink.case_rust_only(json!({"kind": "no-oov-provider", "variant": k, "text": t}), !t.is_empty());
+                        if let Err(p) = analyse(&dict, &mut tok, Mode::C, t) {
+                            sink.fail(id, &format!("a configuration without OOV provider loaded, and analysing {:?} panicked: {}", t, p), "");
+                            tok = StatefulTokenizer::new(&dict, Mode::C);
+                        }
+                    }
+                }
+            }
+        }
+    }
     if replay_case.is_none() || replay_case.as_ref().map(|c| c["kind"] == "reuse-session").unwrap_or(false) {
         reuse_sessions(&mut sink, &mut rng, args, &dir, &system, &user, &extra_users, replay_case.as_ref());
     }
